@@ -41,3 +41,30 @@ Theorem C14_old_strand_rule_refuted :
   (exists f, f_rev f = true /\ old_is_reverse (gb_positions_form0 f) = false).
 Proof. exact old_strand_rule_refuted. Qed.
 Print Assumptions C14_old_strand_rule_refuted.
+
+(* ---- the GenBank location qualifier at the level of bytes (LocationModel.v mirrors pkg/genbank/location.go and is compared
+   with it on every run) ---- *)
+From GF Require Import LocationModel LocationProofs.
+(* GetPositions of the text of a location - a..b, join(...), complement(a..b), complement(join(...)), join(complement(...),...),
+   any numbers, any number of segments listed in any order - is exactly the position list the location denotes *)
+Theorem C14_location_positions : forall l, wf_loc l -> get_positions (render l) = Ok (loc_positions l).
+Proof. exact get_positions_render. Qed.
+Print Assumptions C14_location_positions.
+(* ... and IsReverse (as repaired, D14) its strand *)
+Theorem C14_location_strand : forall l, wf_loc l -> is_reverse (render l) = Ok (loc_reverse l).
+Proof. exact is_reverse_render. Qed.
+Print Assumptions C14_location_strand.
+(* composed with the feature AST: what CDSRegion2fromGenbank reads from the qualifier is what the AST-level model assumes *)
+Theorem C14_genbank_location_read : forall form1 f, f_segs f <> [] ->
+  get_positions (render (gb_loc form1 f)) =
+    Ok (map Z.of_nat (if f_rev f then (if form1 then concat (map rrange (rev (f_segs f))) else rev (concat (map range (f_segs f))))
+                      else concat (map range (f_segs f)))) /\
+  is_reverse (render (gb_loc form1 f)) = Ok (f_rev f).
+Proof. exact genbank_location_read. Qed.
+Print Assumptions C14_genbank_location_read.
+(* the rule IsReverse used before D14, on the very texts: wrong in both directions *)
+Theorem C14_old_strand_rule_refuted_on_text :
+  is_reverse_old (render (LJoin [(40, 51); (1, 9)]%nat)) = Ok true /\ loc_reverse (LJoin [(40, 51); (1, 9)]%nat) = false /\
+  is_reverse_old (render (LCompJoin [(38, 41); (25, 26); (28, 33)]%nat)) = Ok false /\ loc_reverse (LCompJoin [(38, 41); (25, 26); (28, 33)]%nat) = true.
+Proof. exact is_reverse_old_refuted. Qed.
+Print Assumptions C14_old_strand_rule_refuted_on_text.
